@@ -9,7 +9,7 @@ from vcommon import seed
 PROP = "C03"
 FAMS = ["reflexive", "sublist", "combination", "scaled", "equal_bounds", "infeasible_left", "empty_right",
         "separated", "feasible_vs_infeasible", "empty_left", "random", "contract_weaken", "contract_under_assumptions",
-        "contract_itf", "membership", "print_twin", "huge_constant", "contract_infeasible_side"]
+        "contract_itf", "membership", "print_twin", "huge_constant", "contract_infeasible_side", "infeasible_left_disconnected"]
 
 
 def feasible_list(rng, vs, n, dy=0.0):
@@ -44,6 +44,13 @@ def gen_case(rng, i):
     elif fam == "infeasible_left":
         r = rng.choice(L)
         c.update(L=L + [({v: -a for v, a in r[0].items()}, -r[1] - rng.choice([1, 2]))], R=gen.rlist_raw(rng, vs, 1, 3))
+    elif fam == "infeasible_left_disconnected":
+        # the left side is unsatisfiable, but only in variables that nothing links to the right side's: it still refines everything
+        k = rng.choice([1, 2])
+        bad = [({"q": 1}, 0), ({"q": -1}, -k)] if rng.random() < 0.6 else [({"q": 1, "r": 1}, 0), ({"q": -1, "r": -1}, -k)]
+        Ld = L + bad
+        rng.shuffle(Ld)
+        c.update(L=Ld, R=gen.rlist_raw(rng, vs, 1, 2) if rng.random() < 0.7 else [weakened(rng.choice(L), -3)])
     elif fam == "empty_right":
         c.update(L=L, R=[])
     elif fam == "separated":
